@@ -675,6 +675,8 @@ def run_line(line):
             ld = LocatedDifferential(o, mkpoint(p))
         except (DomainError, CoordinateMissing):
             return 'SKIP'
+        except (OverflowError, ValueError, ZeroDivisionError):
+            return 'SKIP'          # an intermediate leaves the double range (cos(inf)): no object to print
         return repr_tokens(repr(ld))
     if cmd == 'OBJEQ':
         # the last sentence of C06: Differential(e).component(v) == Partial(e, v) and
@@ -748,6 +750,8 @@ def run_line(line):
                 o = LocatedDifferential(build(e), mkpoint(p))
             except (DomainError, CoordinateMissing):
                 return 'SKIP'
+            except (OverflowError, ValueError, ZeroDivisionError):
+                return 'SKIP'      # an intermediate leaves the double range (cos(inf)): no object to print
         else:
             return 'ERROR RTOBJ ' + sub
         try:
